@@ -127,3 +127,10 @@ claimed["C11"] = (
     "inputs whose acceptance the reference leaves unspecified only get the 'at most once' check; handler argument identity is judged on values (handlers take `any`); pauses are single, at statement granularity; the context value is how handler invocations are attributed to run IDs",
     "DESIGN.md §3 C11",
 )
+claimed["C13"] = (
+    "exploration",
+    "Go race detector over first-use races of fresh schema instances, plus a concurrent-equals-isolated result oracle; package-level values raced in a child process per trial",
+    "Per trial two equal instances exist: one is used sequentially (the 'in isolation' outcome of every call, taken twice), the other is touched for the first time by 2..16 goroutines released together, each running the calls in its own shuffled order. Instances: generated shapes built with freshly constructed unit definitions; scopes rebuilt by UnserializeScope; generated callable plugins (CallStep / CallSignal with per-call and shared run IDs, plus rounds in which all goroutines use one new run ID at once); plugin schemas rebuilt by UnserializeSchema after CBOR; and the package-level unit definitions and meta-schemas, for which every trial is a child process whose very first SDK calls are the racing ones (compared with a sequential child). The whole workload runs in a plain and in a -race build; every race report (keyed by the two SDK functions), every outcome that differs from the isolated one, every runtime fatal (concurrent map access) and every extra initialiser run is a violation.",
+    "the race detector only sees the interleavings that happen: evidence reports trials, goroutine counts and how many distinct first operations collided; errors are compared by presence; cross-instance ValidateCompatibility is skipped for recursive shapes (C15 known finding)",
+    "DESIGN.md §3 C13",
+)
